@@ -278,7 +278,13 @@ class LessParser(object):
                     # what goes wrong in an imported file goes wrong in
                     # this compilation
                     recurse.register = self.register
-                    recurse.parse(filename=filename, debuglevel=0)
+                    try:
+                        recurse.parse(filename=filename, debuglevel=0)
+                    except SyntaxError as e:
+                        # (the lexer met an illegal character) left to
+                        # propagate out of this grammar action it would be
+                        # taken by yacc for a request to recover, silently
+                        self.handle_error('%s: %s' % (filename, e), p.lineno(1))
                     p[0] = recurse.result
                 else:
                     err = "Cannot import '%s', file not found" % filename
